@@ -62,6 +62,8 @@ func main() {
 			}()
 		}
 		jobMain(os.Args[2:])
+	case "witnesses":
+		os.Exit(witnessesMain(os.Args[2]))
 	case "selfcheck":
 		os.Exit(selfcheck())
 	case "list":
